@@ -28,6 +28,17 @@ def core_cases():
            mk('Привет', encoding='iso-8859-5', eci=True), mk('한국어', encoding='euc_kr', eci=True),
            mk(b'\x82\x10'), mk(b'\x82\x40'), mk(b'\xe0\x7f'), mk(b'\xeb\xc0'), mk(0), mk(-17), mk(''),
            mk([('Märchen', None, 'utf-8'), ('Füße', None, 'cp1252'), 'abc'], eci=True)]
+    # every codec of the independent ECI table, with text that the codec can represent
+    from vmon import oracle
+    for codec in sorted(oracle.ECI_NUMBERS):
+        try:
+            text = bytes(range(0xa1, 0xff)).decode(codec, errors='ignore')
+            text = ''.join(ch for ch in text if ch.isprintable())[:6] or 'abc'
+            text.encode(codec)
+        except (UnicodeError, LookupError):
+            text = 'abc'
+        out.append(mk(text + ' x', encoding=codec, eci=True, tag='eci-table'))
+        out.append(mk(text + ' x', encoding=codec, tag='eci-table'))
     return out
 
 
